@@ -44,6 +44,7 @@ def run(ctx):
     _run_main(ctx)
     _shared_r4(ctx)
     _shared_r5(ctx)
+    _round6(ctx)
 
 
 def _run_main(ctx):
@@ -266,3 +267,10 @@ def _shared_r5(ctx):
     with ctx.rule('R05.11', 'the connection ends once its closing frame is flushed, in every closing state, and the seal survives the write loop (shared with C08 / C01)', floor=2) as r:
         A.include(ctx, r, 'c08', 'R08.5', pick=('done:',))
         A.include(ctx, r, 'c01', 'R01.7', pick=('forward:clear',))
+
+
+def _round6(ctx):
+    """Rules that are necessary conditions of this property too (found by seeding round 6)."""
+    from rules import arms as A
+    with ctx.rule('R05.12', 'a close or EOF behind any burst is seen: one readable wake-up hands over every complete frame and reads until the transport would block (shared with C06)', floor=7) as r:
+        A.include(ctx, r, 'c06', 'R06.2')
